@@ -110,15 +110,16 @@ class HrrAlgebra(AbstractAlgebra):
         return v
 
     def make_unitary(self, v):
-        fft_val = np.fft.fft(v)
-        fft_imag = fft_val.imag
-        fft_real = fft_val.real
-        fft_norms = np.sqrt(fft_imag**2 + fft_real**2)
+        # Work on the half spectrum of the real vector so that the normalized
+        # spectrum stays Hermitian even where coefficients vanish up to rounding
+        # (otherwise taking the real part below destroys unitarity).
+        fft_val = np.fft.rfft(v)
+        fft_norms = np.abs(fft_val)
         invalid = fft_norms <= 0.0
         fft_val[invalid] = 1.0
         fft_norms[invalid] = 1.0
         fft_unit = fft_val / fft_norms
-        return np.array((np.fft.ifft(fft_unit, n=len(v))).real)
+        return np.fft.irfft(fft_unit, n=len(v))
 
     def superpose(self, a, b):
         return a + b
